@@ -108,6 +108,19 @@ pub fn bfs<Y: System>(
         }
     }
     st.states = nodes.len() as u64;
+    // write out a couple of explored traces: the deepest state's history and one from the middle
+    if out.trace_samples.len() < 4 && nodes.len() > 1 {
+        for &i in &[nodes.len() - 1, nodes.len() / 2] {
+            let mut ops: Vec<String> = Vec::new();
+            let mut j = i;
+            while let Some(op) = &nodes[j].op {
+                ops.push(format!("{op:?}"));
+                j = nodes[j].parent;
+            }
+            ops.reverse();
+            out.trace_samples.push(format!("seed#{j} -> [{}] (depth {})", ops.join(", "), nodes[i].depth));
+        }
+    }
     // the frontier emptied by itself iff no node at the depth horizon was left unexpanded
     st.frontier_emptied = !st.cap_hit && nodes.iter().all(|n| n.depth < max_depth);
     out.states += st.states;
